@@ -17,6 +17,12 @@ MC_KindT == <<"default", "default", "setup", "new", "shared", "shared">>
 \* one real instance next to the two inert ones
 MC_StoreI == <<1, 2, 3>>
 MC_KindI == <<"default", "empty", "none">>
+\* three instances constructed during the program by whichever thread (each thread's first, second, ...)
+\* next to one that exists before
+MC_StoreM == <<1, 2, 3>>
+MC_KindM == <<"made", "made", "default">>
+MC_StoreM3 == <<1, 2, 3, 4>>
+MC_KindM3 == <<"made", "made", "made", "default">>
 MC_StoreS == <<1, 2, 0>>
 MC_KindS == <<"default", "setup", "shared">>
 MC_Store2 == <<1, 0>>
@@ -30,6 +36,7 @@ MC_NoDups == {}
 MC_Dups == {<< <<1, 1>>, <<1, 2>> >>, << <<2, 2>>, <<1, 2>>, <<2, 1>> >>}
 MC_AllKinds == {"push", "root", "disabled", "current"}
 MC_PushRoot == {"push", "root"}
+MC_PushRootCurrent == {"push", "root", "current"}
 MC_AllForms == {"guard", "call"}
 MC_Guard == {"guard"}
 
